@@ -42,6 +42,31 @@ def budget(tier):
 def generate(tp: Tape, tier: str):
     profile = tp.weighted([("hostile", 6), ("general", 3), ("reduce", 2), ("multi", 1)])
     case = c01.generate(tp, tier, profile=profile, allow_zero_default=True)
+    k = tp.weighted([("none", 8), ("qr_edge", 1), ("scan_many_chunks", 1)])
+    if k == "qr_edge":
+        # tall-and-skinny inputs whose last row chunk is shorter than the others / than the column count
+        m = tp.randint(1, 4)
+        c = tp.randint(max(1, m - 1), m + 3)
+        n = c * tp.randint(1, 4) + tp.randint(0, c - 1)
+        inp = dict(shape=[max(n, m), m], chunks=[c, tp.choice([m, m, max(1, m - 1)])], dtype="float64",
+                   src=tp.choice(["asarray", "from_zarr"]), data_seed=tp.randint(0, 10**6), nan=False)
+        op = tp.choice(["qr_recon", "svd_recon", "svd_s", "qr"])
+        case["prog"] = dict(inputs=[inp], steps=[dict(op=op, args=[0], p={})], outputs=[1])
+    elif k == "scan_many_chunks":
+        # scans over many chunks: the supported chunk counts form a pattern (<= 5, or multiples of 5 at every level)
+        nb = tp.choice([tp.randint(2, 12), 5 * tp.randint(2, 16), 25 * tp.randint(1, 3), tp.randint(13, 80)])
+        c = tp.choice([1, 1, 2])
+        n = nb * c - tp.randint(0, c - 1)
+        other = tp.choice([None, 2, 3])
+        shape = [n] if other is None else ([other, n] if tp.coin() else [n, other])
+        axis = shape.index(n)
+        chunks = [c if i == axis else s for i, s in enumerate(shape)]
+        inp = dict(shape=shape, chunks=chunks, dtype=tp.choice(["int64", "float64"]), src="asarray",
+                   data_seed=tp.randint(0, 10**6), nan=False)
+        fn = tp.choice(["cumulative_sum", "cumulative_sum", "cumulative_prod"])
+        case["prog"] = dict(inputs=[inp], steps=[dict(op="cumulative", args=[0], p=dict(axis=axis, fn=fn, include_initial=False))],
+                            outputs=[1])
+    case["targeted"] = k
     return case
 
 
